@@ -25,11 +25,20 @@ func (spec Spec) Validate() (err error)
   invariant[3] name == (u.URLRule.PolicyRef != "" ? u.URLRule.PolicyRef : spec.DefaultPolicyRef) && u == spec.URLs[idx$2] && 0 <= idx$2 && idx$2 < len(spec.URLs)
   invariant[3] forall j int :: 0 <= j && j < idx$2 ==> (exists k int :: 0 <= k && k < len(spec.Policies) && spec.Policies[k].Name == (spec.URLs[j].URLRule.PolicyRef != "" ? spec.URLs[j].URLRule.PolicyRef : spec.DefaultPolicyRef))
 
+ghost var gRLLimit int     // the policy handed to the limiter library by createRateLimiter
+ghost var gRLTimeout int
+ghost var gRLPeriod int
 func (url *URLRule) createRateLimiter()
   flag allocates
   requires url != nil && policyOK(url.policy)
-  modifies url.rl, allof("ghost:github.com/megaease/easegress/pkg/util/ratelimiter.clock")
+  modifies url.rl, gRLLimit, gRLTimeout, gRLPeriod, allof("ghost:github.com/megaease/easegress/pkg/util/ratelimiter.clock")
   ensures url.rl != nil && fresh(url.rl)
+  // C09: the limiter runs with the configured numbers: limitForPeriod (50 when absent), timeoutDuration exactly as
+  // given - 0s means "admit now or reject, never queue" - (100ms when absent), limitRefreshPeriod (10ms when absent)
+  ensures the-limiter-runs-with-the-configured-policy: gRLLimit == (url.policy.LimitForPeriod == 0 ? 50 : url.policy.LimitForPeriod) && (url.policy.TimeoutDuration == "" ==> gRLTimeout == 100000000) && (url.policy.TimeoutDuration != "" && durOK(url.policy.TimeoutDuration) ==> gRLTimeout == durOf(url.policy.TimeoutDuration)) && (url.policy.LimitRefreshPeriod == "" ==> gRLPeriod == 10000000) && (url.policy.LimitRefreshPeriod != "" && durOK(url.policy.LimitRefreshPeriod) ==> gRLPeriod == durOf(url.policy.LimitRefreshPeriod))
+  ghost at call[1] New: gRLLimit := policy.LimitForPeriod
+  ghost at call[1] New: gRLTimeout := policy.TimeoutDuration
+  ghost at call[1] New: gRLPeriod := policy.LimitRefreshPeriod
 
 // ---- C11 / C09: hot update of the filter ----
 // C09 / C11: a rule's policy is unchanged by a reload iff the policy it names - or, when it names none, the
@@ -64,7 +73,7 @@ func (rl *RateLimiter) createRateLimiterForURL(u *URLRule)
   flag allocates
   requires rl != nil && urlsWF(rl.spec) && u != nil
   requires a-validated-spec: (forall k int :: 0 <= k && k < len(rl.spec.Policies) ==> policyOK(rl.spec.Policies[k])) && policyDefined(rl.spec, u)
-  modifies u.rl, u.policy, u.URLRule.id, u.URLRule.URL.re, allof("ghost:github.com/megaease/easegress/pkg/util/ratelimiter.clock")
+  modifies u.rl, u.policy, u.URLRule.id, u.URLRule.URL.re, gRLLimit, gRLTimeout, gRLPeriod, allof("ghost:github.com/megaease/easegress/pkg/util/ratelimiter.clock")
   ensures u.rl != nil && fresh(u.rl)
 
 func (rl *RateLimiter) bindPolicyToURL(u *URLRule)
@@ -85,7 +94,7 @@ func (rl *RateLimiter) reload(previousGeneration *RateLimiter)
   flag allocates
   requires rl != nil && urlsWF(rl.spec) && (previousGeneration != nil ==> previousGeneration != rl && urlsWF(previousGeneration.spec) && disjointGenerations(rl.spec, previousGeneration.spec))
   requires a-validated-spec: specValid(rl.spec)
-  modifies gPol1, gPol2, allof("ghost:github.com/megaease/easegress/pkg/util/ratelimiter.clock"), allof("filters/ratelimiter.URLRule.rl"), allof("filters/ratelimiter.URLRule.policy"), allof("filters/ratelimiter.URLRule.URLRule.id"), allof("filters/ratelimiter.URLRule.URLRule.URL.re")
+  modifies gPol1, gPol2, gRLLimit, gRLTimeout, gRLPeriod, allof("ghost:github.com/megaease/easegress/pkg/util/ratelimiter.clock"), allof("filters/ratelimiter.URLRule.rl"), allof("filters/ratelimiter.URLRule.policy"), allof("filters/ratelimiter.URLRule.URLRule.id"), allof("filters/ratelimiter.URLRule.URLRule.URL.re")
   ensures previous-generation-keeps-its-limiters: previousGeneration != nil ==> (forall k int :: 0 <= k && k < len(previousGeneration.spec.URLs) ==> previousGeneration.spec.URLs[k].rl == old(previousGeneration.spec.URLs[k].rl))
   ensures every-rule-has-a-limiter: forall k int :: 0 <= k && k < len(rl.spec.URLs) ==> rl.spec.URLs[k].rl != nil
   ensures limiter-is-inherited-or-new: previousGeneration != nil ==> (forall k int :: 0 <= k && k < len(rl.spec.URLs) ==> fresh(rl.spec.URLs[k].rl) || (exists j int :: 0 <= j && j < len(previousGeneration.spec.URLs) && rl.spec.URLs[k].rl == old(previousGeneration.spec.URLs[j].rl) && urlrule.sameRule(ref(addr(rl.spec.URLs[k].URLRule)), ref(addr(previousGeneration.spec.URLs[j].URLRule))) && samePolicy(rl.spec, previousGeneration.spec, rl.spec.URLs[k].URLRule.PolicyRef)))
